@@ -10,8 +10,8 @@ from props import clsmodel as M
 
 PROP = "C07"
 # ordered pool: in-class metacharacters, their neighbours, and ordinary anchors
-PTS = ["#", "$", "%", ",", "-", ".", "/", "0", "5", "9", ":", "Z", "[", "\\", "]", "^", "_", "`", "a", "b", "c", "f", "m", "y", "z", "{"]
-CORE = ["$", "-", "/", "0", "9", "[", "\\", "]", "^", "`", "a", "b", "c", "f", "z"]
+PTS = ["\x00", "\x01", "#", "$", "%", ",", "-", ".", "/", "0", "5", "9", ":", "Z", "[", "\\", "]", "^", "_", "`", "a", "b", "c", "f", "m", "y", "z", "{", "\U0010fffe", "\U0010ffff"]
+CORE = ["\x00", "$", "-", "/", "0", "9", "[", "\\", "]", "^", "`", "a", "b", "c", "f", "z", "\U0010ffff"]
 
 
 def C(ch):
